@@ -208,6 +208,7 @@ ITEM_KINDS = {
     "unit=1000 psi": ("ODDU", "1000 psi", "12.5", "odd unit"),
     "unit=1000": ("ODDU", "1000", " 12.5", "numeric unit"),
     "unit=[M]": ("ODDU", "[M]", "12.5", "bracketed unit"),
+    "unit=[[[M]]]": ("ODDU", "[[[M]]]", "12.5", "nested bracketed unit"),
     "unit=OHM.M": ("ODDU", "OHM.M", "12.5", "dotted unit"),
     "unit=%": ("ODDU", "%", "12.5", "percent unit"),
     "empty-unit": ("EMPU", "M", "", "empty value with unit"),
